@@ -35,6 +35,12 @@ def _jobs(tier, seed):
     rng = random.Random(1234)
     for i, g in enumerate(fam):
         jobs.append({"g": g, "inputs": _inputs_plain(g, p, rng), "tables": ["LALR", "SLR"] if i % 2 == 0 else ["LALR"], "origin": "det", "variant": "plain"})
+    # nullable-heavy shapes over ONE terminal (right-nulled rules sharing a prefix, hidden recursion): where revisits and limited re-reductions matter
+    one = [("a", "str", "a")]
+    nh = [g for g in gen.family(4, 3, nts=("S", "A"), terms=one, limit=p["nfam"] * 3, rng_seed=79, sizes=(3, 4))
+          if any(not rhs for _, rhs in g["prods"]) and not gen.cyclic(g["prods"], ["a"])][: p["nfam"] // 2]
+    for g in nh:
+        jobs.append({"g": g, "inputs": ["a" * n for n in range(0, p["smax"] + 2)], "tables": ["LALR"], "origin": "det", "variant": "nullable1"})
     rng = random.Random(4242)
     for g in fam[:: 3]:
         alpha = [t[2] for t in g["terms"]]
